@@ -314,6 +314,18 @@ func (g *xgen) boolE(d int) *E {
 	switch g.pick(14, "boolform") {
 	case 0, 1, 2:
 		op := rapid.SampledFrom([]string{"<", ">", "<=", ">=", "==", "!="}).Draw(g.t, "cmp")
+		if g.pick(8, "closepair") == 0 {
+			// two large integers that differ by 0, 1 or 2 (also as a literal list for `in`)
+			base := rapid.SampledFrom([]int64{1000000000, 2000000000, 4294967296, 1 << 40, 1e15, 1<<53 - 4}).Draw(g.t, "pairbase")
+			l, r := Int(base+int64(g.pick(3, "pl"))), Int(base+int64(g.pick(3, "pr")))
+			if g.pick(3, "pairin") == 0 {
+				return g.fallbackBool(g.deco(Bin(rapid.SampledFrom([]string{"in", "not in"}).Draw(g.t, "pairinop"), l, List(r, Int(base+7))), 2))
+			}
+			if g.pick(2, "pairarith") == 0 {
+				l = Bin("+", Int(base), Int(l.I-base))
+			}
+			return g.fallbackBool(g.deco(Bin(op, l, r), 2))
+		}
 		return g.fallbackBool(g.deco(Bin(op, g.intE(d-1), g.intE(d-1)), 2))
 	case 3:
 		op := rapid.SampledFrom([]string{"==", "!=", "starts with", "ends with", "in", "not in"}).Draw(g.t, "strcmp")
